@@ -136,6 +136,20 @@ CHECKS = {
         technique='symbolic execution of the real Python code (CrossHair/z3), per-condition solver verdict',
         engine='E1',
     ),
+    'C12': dict(
+        category='other',
+        text=('Bounded symbolic execution (CrossHair + z3) of the classes the real Parser emits for SUMIF/SUMIFS/COUNTIFS/AVERAGEIFS; the criterion '
+              'forms (number, cell, six operator-prefixed literals, six operator&cell forms, text, operator+text, four wildcard patterns) x four '
+              'functions and ten structural shapes (two pairs, SUMIF target derivation, misaligned ranges) are enumerated and pushed through the real '
+              'lexer/parser/LambdaTokenTranslator; range contents and the referenced criterion cell are symbolic; oracle = independent '
+              'select-then-fold with a three-valued accept predicate (nothing is demanded where the statement is silent).'),
+        design_ref='DESIGN.md section 6 / C12',
+        note=('3-row ranges; numeric forms: three symbolic Union[int,str] cells; text/wildcard forms: one symbolic text cell (len<=3, realised by the '
+              'engine); AVERAGEIFS division spied; date criteria, floats, >2 pairs outside the claim; three known findings (text cell under a numeric '
+              'comparison raises; operator+text criteria) are partitioned out.'),
+        technique='symbolic execution of the real Python code (CrossHair/z3), per-condition solver verdict',
+        engine='E1',
+    ),
 }
 
 NOT_YET = {}   # filled below for every property without a check
